@@ -30,8 +30,14 @@ from aws_durable_execution_sdk_python.operation.callback import (
 )
 from aws_durable_execution_sdk_python.operation.child import child_handler
 from aws_durable_execution_sdk_python.operation.invoke import InvokeOperationExecutor
-from aws_durable_execution_sdk_python.operation.map import map_handler
-from aws_durable_execution_sdk_python.operation.parallel import parallel_handler
+from aws_durable_execution_sdk_python.operation.map import (
+    MapSummaryGenerator,
+    map_handler,
+)
+from aws_durable_execution_sdk_python.operation.parallel import (
+    ParallelSummaryGenerator,
+    parallel_handler,
+)
 from aws_durable_execution_sdk_python.operation.step import StepOperationExecutor
 from aws_durable_execution_sdk_python.operation.wait import WaitOperationExecutor
 from aws_durable_execution_sdk_python.operation.wait_for_condition import (
@@ -434,6 +440,10 @@ class DurableContext(DurableContextProtocol):
             config=ChildConfig(
                 sub_type=OperationSubType.MAP,
                 serdes=getattr(config, "serdes", None),
+                # the summary generator summarises the BatchResult of the whole map
+                summary_generator=config.summary_generator
+                if config is not None
+                else MapSummaryGenerator(),
                 # child_handler should only know the serdes of the parent serdes,
                 # the item serdes will be passed when we are actually executing
                 # the branch within its own child_handler.
@@ -477,6 +487,10 @@ class DurableContext(DurableContextProtocol):
             config=ChildConfig(
                 sub_type=OperationSubType.PARALLEL,
                 serdes=getattr(config, "serdes", None),
+                # the summary generator summarises the BatchResult of the whole parallel
+                summary_generator=config.summary_generator
+                if config is not None
+                else ParallelSummaryGenerator(),
                 # child_handler should only know the serdes of the parent serdes,
                 # the item serdes will be passed when we are actually executing
                 # the branch within its own child_handler.
